@@ -324,7 +324,15 @@ func runC09(p c09Plan, c *stats.Case) error {
 	defer cancel()
 	conn, derr := a.Utp.DialWithCid(ctx, b.Node(), connID)
 	if derr != nil {
-		return fmt.Errorf("%d keys accepted and connection id %d announced, but nobody accepted the uTP dial: %v", nAcc, connID, derr)
+		// a dial that times out is the signature of "nobody is waiting", but also of a starved machine: the first
+		// failure is retried once after the acceptor had ample time, and only a second failure is judged
+		time.Sleep(500 * time.Millisecond)
+		ctx2, cancel2 := context.WithTimeout(context.Background(), 10*time.Second)
+		defer cancel2()
+		conn, derr = a.Utp.DialWithCid(ctx2, b.Node(), connID)
+		if derr != nil {
+			return fmt.Errorf("%d keys accepted and connection id %d announced, but nobody accepted the uTP dial (two attempts): %v", nAcc, connID, derr)
+		}
 	}
 	if len(payload) > 0 {
 		if _, werr := conn.Write(ctx, payload); werr != nil {
